@@ -30,6 +30,9 @@ func (o Outcome) String() string { return [...]string{"done", "budget", "horizon
 type Knobs struct {
 	// Delivery-size mixture weights: whole queue, one byte, random prefix.
 	WAll, WOne, WRand int
+	// WBatch: chance (in percent) that a step applies 2-4 network events before the system runs again, so that
+	// goroutines woken by different events are runnable in the same step (and interleave at preemption points).
+	WBatch int
 	// WAdvance is the weight of "advance the clock" relative to 100 for
 	// picking a network/user event.
 	WAdvance int
@@ -40,7 +43,7 @@ type Knobs struct {
 }
 
 func DefaultKnobs() Knobs {
-	return Knobs{WAll: 6, WOne: 1, WRand: 3, WAdvance: 0, MaxSteps: 20000, Horizon: 6 * time.Hour}
+	return Knobs{WAll: 6, WOne: 1, WRand: 3, WBatch: 10, WAdvance: 0, MaxSteps: 20000, Horizon: 6 * time.Hour}
 }
 
 type userEvent struct {
@@ -178,7 +181,27 @@ func (s *Sched) step() bool {
 		time.Sleep(d)
 		return true
 	}
-	c := cs[s.Tape.Intn(len(cs))]
+	ci := s.Tape.Intn(len(cs))
+	c := cs[ci]
+	defer func() {
+		// batching: more network events of the same quiescent point, applied before anything else runs
+		// (not after a user event: those may drain the network themselves, which makes the list stale)
+		if s.Knobs.WBatch <= 0 || len(cs) < 2 || c.user != nil || s.Tape.Pick(100-s.Knobs.WBatch, s.Knobs.WBatch) != 1 {
+			return
+		}
+		extra := 1 + s.Tape.Intn(3)
+		used := map[int]bool{ci: true}
+		for ; extra > 0 && len(used) < len(cs); extra-- {
+			j := s.Tape.Intn(len(cs))
+			if used[j] || cs[j].net == nil || cs[j].key == c.key {
+				continue
+			}
+			used[j] = true
+			e := cs[j].net
+			line := s.Net.Apply(*e, 0)
+			s.note("batched-"+e.Kind.String(), line)
+		}
+	}()
 	switch {
 	case c.user != nil:
 		s.removeUser(c.user)
